@@ -13,19 +13,27 @@
      RelVarNameAssigner::fold_rel (postprocess.rs)   FROM aliases of one atomic pipeline: the same loop
                                                       = regen_r / assign_names below.  `names` / `relation_instance_names` are
                                                       compared EXACTLY (spelling); only `reserved` is compared case-insensitively.
-   COLUMN names (generator col_name):
-     AnchorContext::ensure_column_name (context.rs)  an unnamed column gets gen() UNCHECKED          = ensure_column_name
+   COLUMN names (generator col_name).  The repair of finding F33b (fixes/F33b-*.diff) gives this generator a reserved set
+   too -- AnchorContext::gen_col_name over reserved_column_names = the lower-cased names of every column the RQ mentions
+   (columns of every table reference, declared columns of every relation; QueryLoader) -- and replaces every col_name.gen()
+   below by it.  The model takes the reserved set as a parameter: the source WITHOUT the repair is the instance
+   reserved = [] (gen_table_name .. [] = plain NameGenerator::gen); GenIdentDialect.col_names_reserved, regenerated from the
+   source on every run, says which one the source is (code_col_reserved).
+     AnchorContext::ensure_column_name (context.rs)  an unnamed column gets gen() without a look at the names in use
+                                                                                                       = ensure_column_name
      anchor_split (pq/anchor.rs), fix 75c6718        per column at a split: ensure_column_name, then
                                                       while used_new_names.contains(new) { new = gen() }   = split_step / split_names
      translate_select_item (gen_expr.rs), fix 755de8e alias of a column that has no name:
                                                       name = gen(); while column_names.values().any(== name) { name = gen() }
                                                                                                        = select_item_alias
-     All column comparisons are EXACT.
+     used_new_names / column_names are compared EXACTLY; only the reserved set is compared case-insensitively.
 
    `lower` is a parameter: Rust's str::to_lowercase (Unicode).  The correspondence runs and the instances in Props/C09.v
    use lower_ascii; the theorems hold for every `lower` that leaves generated names unchanged.
-   Interfaces follow the verification hooks of /repo (44c332e `verif:namegen {site, old, used, new}`, d5c1b7e
-   `verif:pq-names {.., reserved}`, `verif:ensure_column_name{,_result}`): one model function per logged event.
+   Interfaces follow the verification hooks of /repo (44c332e + hooks/namegen-state.diff `verif:namegen {site, old, used,
+   new, gen_before, gen_after}`, `verif:namegen-draw`, `verif:namegen-state`, d5c1b7e `verif:pq-names {.., reserved,
+   reserved_columns}`, `verif:ensure_column_name{,_result}`, `verif:anchor_split {in, mid}`): one model function per logged
+   event, and the list-level functions (assign_names, split_names) per logged loop.
    Executable definitions only; proofs in Proofs/NameGenProofs.v. *)
 From Coq Require Import List NArith Bool.
 From PV Require Import Lib.ListX Model.SqlLex Model.Literal Model.Ident.
